@@ -38,7 +38,7 @@ func UnpadInPlace(data []byte) ([]byte, error) {
 		return nil, errors.New("cannot unpad an empty message")
 	}
 	paddingLen := int(data[len(data)-1])
-	if paddingLen >= len(data)-1 || paddingLen >= alignPaddingTo || paddingLen < 0 {
+	if paddingLen > len(data)-1 || paddingLen >= alignPaddingTo || paddingLen < 0 {
 		return nil, errors.Errorf(
 			"%d padding indicated but message is %d bytes",
 			paddingLen,
